@@ -412,6 +412,14 @@ Proof.
   exists X, b'. split; [exact Hx|exact Hrun].
 Qed.
 
+(* ---- len of a string ----   s := "hello" + "!"; n := len(s); print(n, len(s + s)) *)
+Definition gs : var := mkVar (bs "s") (T DString) true false.
+Definition gn : var := mkVar (bs "n") (T DInt) true false.
+Definition prog_len : list stmt :=
+  [SVarDef [gs] [EBinary (EStr (bs "hello")) OpAdd (EStr (bs "!"))];
+   SVarDef [gn] [ELen (EVar gs)];
+   SPrint [EVar gn; ELen (EBinary (EVar gs) OpAdd (EVar gs))]].
+
 (* ---- return inside a loop ----
    func find(n int) int { for i := 0; i < 10; i++ { if i * i >= n { return i } }; return 0 - 1 }   r := find(10); print(r) *)
 Definition li : var := mkVar (bs "i") (T DInt) false false.
